@@ -4,8 +4,8 @@
    label/field table [tbl]; specification = [parse all_off]); file models, rendering and [expected]: same file;
    well-formedness of file models: Model/C15_Wf.v. *)
 From Coq Require Import Reals ZArith QArith Qabs Qreals List Bool String Ascii.
-From Verif Require Import Lib.Dyadic Lib.Text Model.C15_Antex Model.C15_Wf Model.C15_Check
-                          Proofs.C15_Lines Proofs.C15_Antex Proofs.C15_Pi.
+From Verif Require Import Lib.Dyadic Lib.Text Model.C15_Antex Model.C15_Wf Gen.C15_AntexFields Model.C15_Check
+                          Proofs.C15_Lines Proofs.C15_Covers Proofs.C15_Antex Proofs.C15_Pi.
 Import ListNotations.
 Local Open Scope string_scope.
 
@@ -36,6 +36,21 @@ Theorem antex_file_roundtrip : forall m,
   good_file m = true -> parse all_off std_table (render_file m) = Ok (expected m).
 Proof. exact roundtrip. Qed.
 Print Assumptions antex_file_roundtrip.
+
+(* any label/field table that covers the standard's (same labels and parse methods; every field slot contains the
+   standard's columns of that field, ends before the label column and touches no other field of the record) reads
+   every rendered well-formed file exactly like the standard's table - with or without quirks *)
+Theorem gen_table_reads_like_std : forall q gen m,
+  table_covers gen std_table = true -> good_file m = true ->
+  parse q gen (render_file m) = parse q std_table (render_file m).
+Proof. exact reads_like_std. Qed.
+Print Assumptions gen_table_reads_like_std.
+
+(* hence the roundtrip holds for the table re-read from the source on this run (antex_fields_wf) *)
+Theorem antex_file_roundtrip_gen : forall m,
+  good_file m = true -> parse all_off antex_corr_table (render_file m) = Ok (expected m).
+Proof. exact roundtrip_gen. Qed.
+Print Assumptions antex_file_roundtrip_gen.
 
 (* ... also when arbitrary ignorable lines are interspersed *)
 Theorem antex_file_roundtrip_with_comments : forall m lines keep,
@@ -143,8 +158,16 @@ Theorem c15_grid_count_float_refuted :
 Proof. exact count_float_refuted. Qed.
 Print Assumptions c15_grid_count_float_refuted.
 
-(* non-vacuity: a concrete two-frequency satellite block with azimuth rows, a non-dyadic zenith step and
-   59.9999999 s in VALID UNTIL satisfies the hypotheses of the theorems above *)
+(* a satellite block without the optional VALID FROM record: the specification files it under datetime.min, the
+   current code fails *)
+Theorem c15_sat_without_valid_from_refuted :
+  good_file wfile2 = true /\ parse (quirks_of_mask 16) std_table (render_file wfile2) = Err "UnboundLocalError"
+  /\ map fst (expected wfile2) = [("E11", Some min_us); ("AERAT1675_120   SPKE", None)].
+Proof. exact sat_without_from_refuted. Qed.
+Print Assumptions c15_sat_without_valid_from_refuted.
+
+(* non-vacuity: a concrete two-frequency satellite block with azimuth rows, a FREQ RMS section, a non-dyadic zenith
+   step and 59.9999999 s in VALID UNTIL satisfies the hypotheses of the theorems above *)
 Example good_file_nonvacuous :
-  good_file wfile = true /\ List.length (render_file wfile) = 25%nat.
+  good_file wfile = true /\ List.length (render_file wfile) = 32%nat.
 Proof. vm_compute. split; reflexivity. Qed.
